@@ -231,3 +231,108 @@ func blockIdx(path []*ssa.BasicBlock) []int {
 	}
 	return out
 }
+
+// C18/R5 dynamic-import edges for every chunk.
+//
+// The final-hash visitor (R4) follows chunk.crossChunkImports. A chunk's bytes contain the final
+// path of every chunk it loads with import(), so those targets must be in crossChunkImports of
+// EVERY chunk, entry point or not — otherwise a shared chunk keeps its hashed name while the path
+// substituted into it changes. In computeCrossChunkDependencies the per-chunk loop that builds
+// crossChunkImports therefore has to reach the "dynamic imports" step on every path through its
+// body (only a chunk that is not a JS chunk may skip it).
+func c18DynamicImportEdges(p *Prog) *RuleResult {
+	r := NewRule("C18/R5 dynamic-import-edges", "in computeCrossChunkDependencies every JS chunk, entry point or not, gets its dynamic-import targets appended to crossChunkImports (the edge list the final hash follows)")
+	var fns []*ssa.Function
+	if top := p.FindFunc("linker.(*linkerContext).computeCrossChunkDependencies"); top != nil {
+		fns = withClosures(top)
+	}
+	if !r.Anchor("linker.(*linkerContext).computeCrossChunkDependencies", len(fns) > 0) {
+		return r
+	}
+	found := false
+	for _, fn := range fns {
+		loops := naturalLoops(fn)
+		// the step: a nil test of the field dynamicImports whose non-nil side stores into crossChunkImports
+		for _, b := range fn.Blocks {
+			if len(b.Instrs) == 0 {
+				continue
+			}
+			ifi, ok := b.Instrs[len(b.Instrs)-1].(*ssa.If)
+			if !ok {
+				continue
+			}
+			bo, ok := ifi.Cond.(*ssa.BinOp)
+			if !ok {
+				continue
+			}
+			isDyn := false
+			for _, side := range []ssa.Value{bo.X, bo.Y} {
+				if _, n, ok := loadedField(side); ok && n == "dynamicImports" {
+					isDyn = true
+				}
+			}
+			if !isDyn {
+				continue
+			}
+			// must lead to a store into crossChunkImports
+			stores := false
+			for _, sb := range fn.Blocks {
+				if !b.Dominates(sb) {
+					continue
+				}
+				for _, in := range sb.Instrs {
+					if st, ok := in.(*ssa.Store); ok {
+						if fa, ok := st.Addr.(*ssa.FieldAddr); ok && fieldAddrName(fa) == "crossChunkImports" {
+							stores = true
+						}
+					}
+				}
+			}
+			if !stores {
+				continue
+			}
+			// innermost loop containing the step
+			var header *ssa.BasicBlock
+			for h, body := range loops {
+				if body[b] && (header == nil || len(body) < len(loops[header])) {
+					header = h
+				}
+			}
+			if header == nil {
+				continue
+			}
+			found = true
+			r.Instances++
+			var start *ssa.BasicBlock
+			for _, s := range header.Succs {
+				if loops[header][s] {
+					start = s
+				}
+			}
+			// edges on which the chunk turned out not to be a JS chunk
+			notJS := func(bb *ssa.BasicBlock, si int) bool {
+				if len(bb.Instrs) == 0 {
+					return false
+				}
+				i2, ok := bb.Instrs[len(bb.Instrs)-1].(*ssa.If)
+				if !ok {
+					return false
+				}
+				ex, ok := i2.Cond.(*ssa.Extract)
+				if !ok || ex.Index != 1 {
+					return false
+				}
+				ta, ok := ex.Tuple.(*ssa.TypeAssert)
+				return ok && shortTypeName(ta.AssertedType) == "chunkReprJS" && si == 1
+			}
+			path, escapes := reachesExitAvoidingEdges(start, func(x *ssa.BasicBlock) bool { return x == header }, func(x *ssa.BasicBlock) bool { return x == b }, notJS)
+			if escapes {
+				r.Fail("dynamic-import step reached for every chunk", p.Pos(bo.Pos()), fmt.Sprintf("an iteration of the per-chunk loop can finish (blocks %v) without reaching the step that appends the chunk's dynamic-import targets to crossChunkImports: the final hash of such a chunk does not depend on the chunks it loads with import(), although their final paths are written into it", blockIdx(path)))
+			} else {
+				r.OK("dynamic-import step reached for every chunk", true, "every path through the loop body (except for non-JS chunks) passes the step")
+			}
+		}
+	}
+	r.Anchor("the dynamic-imports step of the per-chunk loop", found)
+	return r
+}
